@@ -152,6 +152,11 @@ pub struct RunResult {
     pub ledger: Option<(u64, u64, u64, u64)>,
 }
 
+/// exhaustive schedule enumeration: controlled cases run with the least-actor fallback and record
+/// the choice sets; `LAST_SCHED` holds (granted, choices) of the last controlled case
+pub static EXHAUST: std::sync::atomic::AtomicBool = std::sync::atomic::AtomicBool::new(false);
+pub static LAST_SCHED: std::sync::Mutex<(Vec<u32>, Vec<Vec<u32>>)> = std::sync::Mutex::new((Vec::new(), Vec::new()));
+
 pub static CASE_STARTED_MS: std::sync::atomic::AtomicU64 = std::sync::atomic::AtomicU64::new(0);
 pub static CURRENT_CASE: std::sync::Mutex<String> = std::sync::Mutex::new(String::new());
 
@@ -194,6 +199,9 @@ fn run_case_inner(c: &Case) -> RunResult {
         Mode::Ctl(s) => {
             exec::JITTER.store(0, Ordering::SeqCst);
             rec::sched_on(s.clone(), c.trace_stage().unwrap_or(u32::MAX));
+            if EXHAUST.load(Ordering::SeqCst) {
+                rec::sched_exhaust();
+            }
         }
     }
     let mut ctx = Ctx::new(c.ops.clone(), c.sets.clone(), c.term.clone());
@@ -219,6 +227,9 @@ fn run_case_inner(c: &Case) -> RunResult {
     }));
     let wall_us = t0.elapsed().as_micros();
     let granted = rec::sched_off();
+    if EXHAUST.load(Ordering::SeqCst) {
+        *LAST_SCHED.lock().unwrap() = (granted.clone(), rec::sched_choices());
+    }
     *exec::PANIC_AT.lock().unwrap() = None;
     exec::JITTER.store(0, Ordering::SeqCst);
     let rec = rec::end_case();
